@@ -8,6 +8,8 @@ from .program import Program, FunctionInfo, AnalysisError
 from .typed import Types
 from .callgraph import CallGraph
 from .cfg import cfg_of, CFG
+from .flow import Flow
+from .fold import Folder
 
 DEFAULT_REPO = os.environ.get("JV_REPO", "/repo")
 
@@ -26,7 +28,18 @@ class Engine:
         self.prog = Program(self.repo)
         self.types = Types(self.prog)
         self.cg = CallGraph(self.prog, self.types)
+        self.flow = Flow(self.prog, self.cg)
         self.build_s = time.time() - t0
+
+    @property
+    def folder(self) -> Folder:
+        """S7 with the import-time state (registrations) already executed"""
+        f = self.__dict__.get("_folder")
+        if f is None:
+            f = Folder(self.prog)
+            f.run_import_time()
+            self.__dict__["_folder"] = f
+        return f
 
     def cfg(self, fn: FunctionInfo) -> CFG:
         return cfg_of(fn)
